@@ -267,6 +267,7 @@ def run(ctx):
 def _imports(ctx):
     from props.common import import_rules
 
+    import_rules(ctx, "C01", {"C01.b"}, "C20.e", "imported from C01 (an emission reaches the installed wrapper only on a thread without a local recorder): the thread-local slot is restored on every path that leaves a local scope, unwinding included — otherwise a stale local recorder shadows the installed wrapper for the rest of the thread's life", floor=6)
     import_rules(ctx, "C02", {"C02.a", "C02.b", "C02.c"}, "C20.d", "imported from C02 (install goes through set_global_recorder): single strong CAS, publication order, hand-back of the rejected recorder — otherwise a failed second install can wedge or replace the installed recoverable recorder", floor=10)
 
 
